@@ -2,10 +2,53 @@
    schedule-free specification [spec] are in C09/Model.v, the line recogniser in C09/Grammar.v.
    This file only names the class of inputs C10 speaks about. Definitions only. *)
 From Coq Require Import ZArith List.
-From RM Require Import Base.Word C09.Model.
+From RM Require Import Base.Word C08.Model C11.Model C09.Model C09.Grammar C09.Driver.
+Import ListNotations.
 Open Scope Z_scope.
 
 (* "every line is shorter than 80 KiB": a complete line has at most 81919 content bytes
    (81920 with its '\n'), and so has the unterminated rest *)
 Definition short_lines {L : Type} (llen : L -> Z) (lines : list L) (tail : Z) : Prop :=
   Forall (fun l => llen l <= HALF_CAP) lines /\ tail < HALF_CAP.
+
+(* ------------------------------------------------------------------ the parser contract used by C16 *)
+
+(* a String back to its bytes *)
+Fixpoint rle_expand (s : rle) : list Z :=
+  match s with
+  | [] => []
+  | (b, c) :: t => repeat b (Z.to_nat (Z.max 1 c)) ++ rle_expand t
+  end.
+
+Definition set_url (t : table) (u : option rle) : table :=
+  mk_table (t_module_id t) (t_debug_file t) (t_files t) (t_origins t) (t_publics t) (t_funcs t)
+           (t_cfi t) (t_win_fd t) (t_win_fpo t) u.
+
+(* The whole-input verdict on a byte string (schedule-free, [spec_c]; for inputs whose lines
+   are shorter than 80 KiB it is what SymbolFile::parse answers under every chunking:
+   c10_chunk_independent): the symbol table without its url, and the url of the last INFO URL record. *)
+Definition parse_bytes (b : list Z) : option (table * option (list Z)) :=
+  let '(ls, tl) := split_bytes b [] in
+  match spec_c (map to_rle ls) (Z.of_nat (length tl)) with
+  | ROk p => match finish p with
+             | Ret t => Some (set_url t None, option_map rle_expand (t_url t))
+             | _ => None
+             end
+  | RErr _ _ => None
+  end.
+
+(* what fetch_symbol_file leaves in the cache: the body, a '\n' if it did not end with one,
+   and an `INFO URL <url>` line (the same definitions as in C16/Model.v) *)
+Definition INFO_URL_SP : list Z := [73; 78; 70; 79; 32; 85; 82; 76; 32].
+Definition url_trailer (u : list Z) : list Z := INFO_URL_SP ++ u ++ [10].
+Fixpoint ends_nl_from (last_is_nl : bool) (b : list Z) : bool :=
+  match b with [] => last_is_nl | c :: r => ends_nl_from (c =? 10) r end.
+Definition ends_nl (b : list Z) : bool := ends_nl_from true b.
+Definition nl_sep (b : list Z) : list Z := if ends_nl b then [] else [10].
+Definition cached_form (body u : list Z) : list Z := body ++ nl_sep body ++ url_trailer u.
+
+(* urls that survive the round trip through an INFO URL line: one line, valid UTF-8, and not
+   starting with a blank (the separator after "INFO URL" is space1, it would swallow it) *)
+Definition url_ok (u : list Z) : Prop :=
+  Forall (fun b => b <> 10 /\ b <> 13) u /\ utf8_ok (to_rle u) = true /\
+  match u with b :: _ => is_sp b = false | [] => True end.
